@@ -338,16 +338,13 @@ Definition meets (a b : list bytes) : bool := existsb (fun x => mem x b) a.
 (* the class of a case, given which laws failed: every failing law must be excused by a class the case is in *)
 Definition law_class (l : list value) (failing : list bytes) : bytes :=
   let cn := existsb has_nan l in
-  let cs := any_clash l in
   let cf := existsb has_fd l in
-  let allowed := (if cn then excused_nan else []) ++ (if cs then excused_sigcmp else []) ++ (if cf then excused_fd else []) in
+  let allowed := (if cn then excused_nan else []) ++ (if cf then excused_fd else []) in
   match failing with
   | [] => dash
   | _ =>
       if subset failing allowed then
-        if cn && meets failing excused_nan then B "nan"
-        else if cs && meets failing excused_sigcmp then B "sigcmp"
-        else B "fd_dup"
+        if cn && meets failing excused_nan then B "nan" else B "fd_dup"
       else dash
   end.
 
